@@ -112,10 +112,12 @@ func (c *client) SendRPC(rpc hrpc.Call) (msg proto.Message, err error) {
 				return msg, err
 			}
 			continue // retry
-		case region.ServerError:
-			// Retry ServerError immediately, as we want failover fast to
-			// another server. But if HBase keep sending us ServerError, we
-			// should start to backoff. We don't want to overwhelm HBase.
+		case region.ServerError, region.NotServingRegionError:
+			// Retry ServerError and NotServingRegionError immediately, as we
+			// want failover fast to another server. But if HBase keep sending
+			// us these, we should start to backoff (the region may well pass
+			// its probe every time and still refuse the request). We don't
+			// want to overwhelm HBase.
 			if serverErrorCount > 1 {
 				sp.AddEvent("retrySleep")
 				backoff, err = sleepAndIncreaseBackoff(ctx, backoff)
@@ -124,8 +126,6 @@ func (c *client) SendRPC(rpc hrpc.Call) (msg proto.Message, err error) {
 				}
 			}
 			serverErrorCount++
-			continue // retry
-		case region.NotServingRegionError:
 			continue // retry
 		}
 		return msg, err
